@@ -266,6 +266,8 @@ def tensor_binop(it, op, a, b, node):
                         and pa_.args[1] == -1 and qa_.args[1] == -2 and pa_.args[2] == qa_.args[2]):
                     t = T.app("einsum2", "...j,...k->...jk", pa_.args[0], qa_.args[0])
                     break
+            else:
+                t = T.outer_normal(t)
     kind = "tensor" if "tensor" in kinds else "ndarray"
     r = it.fresh(t, shape, kind, node)
     if op == "Div" and tb is not None and isinstance(b, VTens):
@@ -586,6 +588,14 @@ def subscript(it, base, idx, node, for_store=False):
     if isinstance(base, (VTuple, VList, VIter)):
         items = it.concrete_items(base)
         if isinstance(idx, VSlice):
+            if items is None and isinstance(base, VList) and idx.lo is None and idx.step is None and const_of(idx.hi) == (True, -1) and base.obj.elem is not None:
+                # all but the last element of a list described by one generic element
+                nl = it.new_list(None)
+                for a_ in ("elem", "comp_node", "comp_iter", "piece_ends"):
+                    if hasattr(base.obj, a_):
+                        setattr(nl.obj, a_, getattr(base.obj, a_))
+                nl.obj.drop_last = True
+                return nl
             if items is None:
                 return it.new_list(None)
             lo = _slice_const(idx.lo)
